@@ -75,9 +75,10 @@ def gen_list(case):
                 pos = [layout[n].index(c) for c in il]
                 # correlated with the common base signal, with replica-dependent strength
                 w = rng.choice([0.0, 0.5, 2.0, 5.0]) if case.get('uneven') else 1.0
-                x = (1.0 + w * (n.endswith('r2'))) * base[n][pos] * rng.choice([1.0, -1.0, 0.5]) + 0.3 * nprng.normal(size=len(il)) + i
+                sc2 = 2.0 ** case.get('scale2', 0)     # overall size of the fluctuations: correlations do not depend on it
+                x = ((1.0 + w * (n.endswith('r2'))) * base[n][pos] * rng.choice([1.0, -1.0, 0.5]) + 0.3 * nprng.normal(size=len(il))) * sc2 + i
                 if case.get('identical') and i > 0 and rng.random() < 0.3:
-                    x = base[n][pos] * 2.0 + i
+                    x = base[n][pos] * 2.0 * sc2 + i
                 samples.append(x)
                 idl.append(il)
             b = pe.Obs(samples, names, idl=idl)
@@ -110,6 +111,9 @@ def check_case(ctx, case):
             return probs
         dv = np.array([o.dvalue for o in obs])
         if np.any(dv == 0):
+            return probs
+        if not (np.all(np.isfinite(cov)) and np.all(np.isfinite(cor))) and np.all(np.isfinite(dv)):
+            probs.append(('violation', 'covariance-not-finite', 'errors %r finite, matrix %r' % (dv[:3], np.asarray(cor)[:2, :2].tolist())))
             return probs
         sc = np.outer(dv, dv)
         if np.max(np.abs(cov - cov.T)) > 1e-12 * np.max(sc):
@@ -243,7 +247,8 @@ def gen_case(ctx):
     mode = rng.choice(['single', 'single', 'same', 'nested', 'overlap', 'strides', 'strides'])
     return {'seed': rng.getrandbits(28), 'n': rng.randint(2, 8), 'ens': sorted(rng.sample(['A', 'B', 'C'], rng.choice([1, 2, 3]))), 'mode': mode,
             'cov': rng.random() < 0.3, 'uneven': rng.random() < 0.5, 'identical': rng.random() < 0.3, 'disjoint': rng.random() < 0.3,
-            'S': rng.choice([0.0, 1.0, 2.0]), 'sameidl': mode == 'single' and rng.random() < 0.7}
+            'S': rng.choice([0.0, 1.0, 2.0]), 'sameidl': mode == 'single' and rng.random() < 0.7,
+            'scale2': rng.choice([0, 0, 0, 0, -17, -24, -33, 20])}
 
 
 def run(ctx):
@@ -258,6 +263,7 @@ def run(ctx):
     for case in cases:
         ctx.count('mode=' + case['mode'])
         ctx.count('nens=%d' % len(case['ens']))
+        ctx.count('scale2=%s' % case.get('scale2', 0))
         ctx.case(case)
         for (kind, key, info) in check_case(ctx, case):
             (ctx.violation if kind == 'violation' else ctx.disagree)(key, {'case': case, 'info': info})
